@@ -196,6 +196,7 @@ def splice_fn(text, spec, lo=0, hi=None):
         raise LostAnchor('fn %s has no body' % spec.name)
     indent = re.match(r'[ \t]*', text[fs:]).group(0)
     # attributes
+    add(fs, indent + '/*vx:contracted*/\n')
     for a in spec.attrs:
         add(fs, indent + a + '\n')
     # return naming
